@@ -281,40 +281,42 @@ theorem readInfoC_facts (urlOk : Bytes → Bool) (buf : Bytes) (i : InfoM) (h : 
   split at h
   · rename_i d _ _
     split at h
-    · rename_i name pl pieces _ _ _
-      split at h
-      · cases h
-      · rename_i hguard
-        dsimp only at h
-        split at h
-        · rename_i priv source url mode _ _ _ hmode
-          simp only [Option.some.injEq] at h
-          subst h
-          have hg : pl < 2 ^ 64 ∧ pieces.length % 20 = 0 := by
-            have hb : (Peer.isUtf8 name && decide (pl < 2 ^ 64) && decide (pieces.length % 20 = 0)) = true := by
-              cases hv : (Peer.isUtf8 name && decide (pl < 2 ^ 64) && decide (pieces.length % 20 = 0)) with
-              | true => rfl
-              | false => rw [hv] at hguard; exact absurd rfl hguard
-            simp only [Bool.and_eq_true, decide_eq_true_eq] at hb
-            exact ⟨hb.1.2, hb.2⟩
-          refine ⟨hg.2, hg.1, ?_⟩
-          intro n md5 hm
-          subst hm
-          -- the mode came from the `length` branch, which checks the bound
-          split at hmode
-          · rename_i n' md5' _ _
-            split at hmode
-            · simp only [Option.some.injEq, ModeM.single.injEq] at hmode
-              obtain ⟨rfl, _⟩ := hmode; assumption
-            · cases hmode
-          · split at hmode
-            · rename_i fl _
-              cases hrf : Peer.readFiles fl with
-              | none => simp [hrf] at hmode
-              | some x => simp [hrf] at hmode
-            · cases hmode
-        · cases h
     · cases h
+    · split at h
+      · rename_i name pl pieces _ _ _
+        split at h
+        · cases h
+        · rename_i hguard
+          dsimp only at h
+          split at h
+          · rename_i priv source url mode _ _ _ hmode
+            simp only [Option.some.injEq] at h
+            subst h
+            have hg : pl < 2 ^ 64 ∧ pieces.length % 20 = 0 := by
+              have hb : (Peer.isUtf8 name && decide (pl < 2 ^ 64) && decide (pieces.length % 20 = 0)) = true := by
+                cases hv : (Peer.isUtf8 name && decide (pl < 2 ^ 64) && decide (pieces.length % 20 = 0)) with
+                | true => rfl
+                | false => rw [hv] at hguard; exact absurd rfl hguard
+              simp only [Bool.and_eq_true, decide_eq_true_eq] at hb
+              exact ⟨hb.1.2, hb.2⟩
+            refine ⟨hg.2, hg.1, ?_⟩
+            intro n md5 hm
+            subst hm
+            -- the mode came from the `length` branch, which checks the bound
+            split at hmode
+            · rename_i n' md5' _ _
+              split at hmode
+              · simp only [Option.some.injEq, ModeM.single.injEq] at hmode
+                obtain ⟨rfl, _⟩ := hmode; assumption
+              · cases hmode
+            · split at hmode
+              · rename_i fl _
+                cases hrf : Peer.readFiles fl with
+                | none => simp [hrf] at hmode
+                | some x => simp [hrf] at hmode
+              · cases hmode
+          · cases h
+      · cases h
   · cases h
 
 theorem readMetainfo_info (urlOk : Bytes → Bool) (b : Bytes) (m : MetainfoM)
@@ -322,18 +324,20 @@ theorem readMetainfo_info (urlOk : Bytes → Bool) (b : Bytes) (m : MetainfoM)
   unfold readMetainfo at h
   split at h
   · split at h
-    · rename_i i _
-      split at h
-      · rename_i info ann com cb enc hinfo _ _ _ _
-        dsimp only at h
+    · cases h
+    · split at h
+      · rename_i i _
         split at h
-        · cases h
-        · simp only [Option.some.injEq] at h
-          subst h
-          exact ⟨_, hinfo⟩
+        · rename_i info ann com cb enc hinfo _ _ _ _
+          dsimp only at h
+          split at h
+          · cases h
+          · simp only [Option.some.injEq] at h
+            subst h
+            exact ⟨_, hinfo⟩
+          · cases h
         · cases h
       · cases h
-    · cases h
   · cases h
 
 /-- sum of bounded lengths that passes the checked sum is itself below 2^64 -/
